@@ -29,6 +29,7 @@ int main(int argc, char** argv)
     ex.cfg.faults = false;
     double t0 = mc::now_s();
     ex.run();
+    ex.long_traces(ex.total);
     auto& total = ex.total;
     total.counters["bound_max_capacity"] = ex.cfg.max_cap;
     total.counters["bound_values"] = ex.cfg.nvalues;
